@@ -95,6 +95,10 @@ func (s *shadow) exec(in *shInc, a hx.T) {
 		for _, x := range hx.Terms(a.Args[0]) {
 			s.exec(in, x)
 		}
+	case "ARep":
+		for i := int64(0); i < a.Int(0); i++ {
+			s.exec(in, a.Term(1))
+		}
 	}
 }
 
@@ -235,6 +239,11 @@ func genProg(r *rand.Rand, depth int, tags map[string]bool) []any {
 
 func genAct(r *rand.Rand, depth int, tags map[string]bool) hx.T {
 	switch p := r.Intn(100); {
+	case p < 4 && depth == 2:
+		// a bulk of requests with one callback programme (only as a top-level action)
+		tags["bulk"] = true
+		n := int64(2 + r.Intn(30))
+		return hx.C("ARep", n, hx.C("AReq", genProg(r, 1, tags)))
 	case p < 66:
 		return hx.C("AReq", genProg(r, depth, tags))
 	case p < 76:
@@ -625,6 +634,44 @@ func valueCases() [][]hx.T {
 		pack(via, answers, raws[len(out)%len(raws)])
 	}
 	pack(0, raws, okHello(9, 0))
+	return out
+}
+
+// MANY outstanding requests: n requests issued in bulk (ARep n a = the action a, n times) that
+// all expire in ONE scan, whose timeout callbacks issue follow-up requests (retries) from inside
+// the scan - at every position of it, or only at some (two bulks with different programmes) -,
+// then replies for the first / last follow-up and a later expiry for the rest.  n runs over
+// 1, 2, 100, 1023, 1024 (quick) plus 1025, 3000 and mixed 1020+5 / 2000+50 (thorough).
+func bulkCases(tier string) [][]hx.T {
+	retry := hx.C("AReq", list(hx.C("AReq", []any{})))
+	retryMore := hx.C("AReq", list(hx.C("AReq", []any{}), hx.T{Name: "ANotify"}, hx.C("ANoRoute", list(hx.C("AReq", []any{})))))
+	plain := hx.C("AReq", []any{})
+	bulk := func(n int64, a hx.T) hx.T { return hx.C("Do", hx.C("ARep", n, a)) }
+	adv := hx.C("Advance", timeout+1)
+	var out [][]hx.T
+	one := func(n int64) {
+		// n requests with a retry each; ids 1..n, the retries get n+1..2n in scan order
+		out = append(out, []hx.T{bulk(n, retry), adv, tick(), respOp(n+1, -1, okHello(0, 0)), respOp(2*n, -1, remoteErr(3)),
+			respOp(1, -1, okHello(1, 0)), adv, tick(), tick()})
+	}
+	sizes := []int64{1, 2, 100, 1023, 1024}
+	if tier == "thorough" {
+		sizes = append(sizes, 1025, 3000)
+	}
+	for _, n := range sizes {
+		one(n)
+	}
+	// retries only at some positions of a big scan; a second scan big enough on its own
+	mixed := func(n, k int64) {
+		out = append(out, []hx.T{bulk(n, plain), bulk(k, retryMore), bulk(3, plain), adv, tick(),
+			respOp(n+k+4, -1, okHello(7, 1)), adv, tick(), tick()})
+	}
+	mixed(60, 5)
+	if tier == "thorough" {
+		mixed(1020, 5)
+		mixed(2000, 50)
+		out = append(out, []hx.T{bulk(1100, retry), adv, tick(), adv, tick(), crash(), bulk(1100, retry), adv, tick(), adv, tick(), tick()})
+	}
 	return out
 }
 
